@@ -1509,6 +1509,315 @@ fn run_siblings(rep: &mut Report, model: &mut Model, rng: &mut Rng, thorough: bo
   rep.extra.insert("sibling_groups".into(), json!(groups.len()));
 }
 
+// ---------------------------------------------------------------------------------------------
+// Family `zone-instant`: what a literal with a NAMED zone denotes.
+//
+// "Named IANA zones ... denote exactly the written value": the value written is a wall-clock time of the
+// zone; it is the instant `local fields − offset`, the offset being the one the zone's rules give FOR THAT
+// LOCAL TIME. The rules come from corpus/C14/zone_transitions.json (python3 zoneinfo; regenerable with
+// corpus/C14/zone_transitions.py): per zone the offset at 1800-01-01 and every transition up to 2038. The
+// oracle below is interval arithmetic over that table and nothing else:
+//   an offset `o` is in force for the local time `L`  iff  the zone's offset at the instant `L − o` is `o`.
+// Exactly one such offset: the literal denotes `L − o`, equals the `Z` literal of that instant, its
+// `time offset` is `o`, its text is what was written. None (the local time is skipped by the transition): the
+// property names no instant for it - the text lists the classes that are null and this is not one of
+// them, and it demands of every value that its text reads back as an equal value; so the literal is either
+// null, or a value without an instant (no `time offset`) that still prints as written. Two (the local time
+// is repeated): the text does not say which; either of the two or no instant is accepted, anything else is
+// not. Literals: every hour and half hour within ±(|offset| + 2 h) of every transition of every zone of the
+// table (both wall clocks, before and after), plus the last second before and the first second after.
+
+/// Offset at the start and `(instant, offset from then on)`; `since` / `until`: nothing is generated outside
+/// (the database bundled with chrono-tz is older than the one the table was made from; the generator of the
+/// table says for each zone which release changed what).
+struct ZoneTable {
+  name: String,
+  initial: i64,
+  trs: Vec<(i64, i64)>,
+  since: i64,
+  until: i64,
+}
+
+impl ZoneTable {
+  /// The offsets in force for the local time `local` (seconds on the naive line): 0, 1 or 2 of them.
+  fn offsets_for_local(&self, local: i64) -> Vec<i64> {
+    let mut out: Vec<i64> = vec![];
+    let n = self.trs.len();
+    // segment k: [start_k, end_k) with offset o_k; segment 0 starts at minus infinity
+    for k in 0..=n {
+      let o = if k == 0 { self.initial } else { self.trs[k - 1].1 };
+      let start = if k == 0 { i64::MIN } else { self.trs[k - 1].0 };
+      let end = if k == n { i64::MAX } else { self.trs[k].0 };
+      let t = local - o;
+      if start <= t && t < end && !out.contains(&o) {
+        out.push(o);
+      }
+    }
+    out
+  }
+}
+
+fn load_zone_tables(rep: &mut Report) -> Vec<ZoneTable> {
+  let path = concat!(env!("CARGO_MANIFEST_DIR"), "/../corpus/C14/zone_transitions.json");
+  let table: serde_json::Value = std::fs::read_to_string(path).ok().and_then(|t| serde_json::from_str(&t).ok()).unwrap_or(json!({}));
+  let mut out = vec![];
+  if let Some(zs) = table["zones"].as_object() {
+    for (name, v) in zs {
+      let trs: Vec<(i64, i64)> = v["transitions"].as_array().cloned().unwrap_or_default().iter().filter_map(|p| Some((p[0].as_i64()?, p[1].as_i64()?))).collect();
+      if let (Some(initial), Some(since), Some(until)) = (v["initial"].as_i64(), v["since"].as_i64(), v["until"].as_i64()) {
+        out.push(ZoneTable { name: name.clone(), initial, trs, since, until });
+      }
+    }
+  }
+  if out.is_empty() {
+    rep.disagree(Kind::ImplVsModel, "zone-instant", "corpus/C14/zone_transitions.json not found or empty", path, "", "the table of zone transitions");
+  }
+  out
+}
+
+fn zi_days_from_civil(y: i64, m: i64, d: i64) -> i64 {
+  let y = if m <= 2 { y - 1 } else { y };
+  let era = y.div_euclid(400);
+  let yoe = y - era * 400;
+  let mp = (m + 9) % 12;
+  let doy = (153 * mp + 2) / 5 + d - 1;
+  let doe = yoe * 365 + yoe / 4 - yoe / 100 + doy;
+  era * 146_097 + doe - 719_468
+}
+
+fn zi_civil_from_days(z: i64) -> (i64, i64, i64) {
+  let z = z + 719_468;
+  let era = z.div_euclid(146_097);
+  let doe = z - era * 146_097;
+  let yoe = (doe - doe / 1460 + doe / 36_524 - doe / 146_096) / 365;
+  let y = yoe + era * 400;
+  let doy = doe - (365 * yoe + yoe / 4 - yoe / 100);
+  let mp = (5 * doy + 2) / 153;
+  let d = doy - (153 * mp + 2) / 5 + 1;
+  let m = if mp < 10 { mp + 3 } else { mp - 9 };
+  (if m <= 2 { y + 1 } else { y }, m, d)
+}
+
+/// `YYYY-MM-DDThh:mm:ss[.fffffffff]` of seconds on the naive line.
+fn zi_local_text(local: i64, ns: i64) -> String {
+  let (y, m, d) = zi_civil_from_days(local.div_euclid(86_400));
+  let sod = local.rem_euclid(86_400);
+  let frac = if ns > 0 { format!(".{}", format!("{:09}", ns).trim_end_matches('0')) } else { String::new() };
+  format!("{:04}-{:02}-{:02}T{:02}:{:02}:{:02}{}", y, m, d, sod / 3600, sod % 3600 / 60, sod % 60, frac)
+}
+
+fn zi_time_text(sod: i64) -> String {
+  format!("{:02}:{:02}:{:02}", sod / 3600, sod % 3600 / 60, sod % 60)
+}
+
+fn zi_class(n: usize) -> &'static str {
+  match n {
+    0 => "skipped",
+    1 => "plain",
+    _ => "repeated",
+  }
+}
+
+/// The nine changes of rules (among the zones of the table) whose time of day the zone database gives in UTC
+/// (`1:00u`) or standard time (`2:00s`): chrono-tz 0.6.3 / parse-zoneinfo 0.3.1 reads it as wall-clock time and
+/// places the change some hours off (finding F30-zone-until-suffix). Disagreements on these local dates get a
+/// signature of their own, so that they do not use up the quota of reported disagreements of the general one.
+const ZI_MISPLACED: [(&str, &str); 9] = [
+  ("Asia/Tokyo", "1887-12-31"),
+  ("Europe/Dublin", "1916-10-01"),
+  ("Europe/Dublin", "1946-10-06"),
+  ("Europe/Dublin", "1947-11-02"),
+  ("Europe/Istanbul", "2011-03-28"),
+  ("Europe/Istanbul", "2014-03-31"),
+  ("Europe/Istanbul", "2015-11-08"),
+  ("Europe/London", "1971-10-31"),
+  ("Europe/Moscow", "1919-07-01"),
+];
+
+fn zi_misplaced(written: &str) -> &'static str {
+  if ZI_MISPLACED.iter().any(|(z, d)| written.starts_with(d) && written.ends_with(&format!("@{}", z))) {
+    " (a change of rules timed in UTC or standard time in the zone database, which chrono-tz 0.6.3 misplaces)"
+  } else {
+    ""
+  }
+}
+
+/// Judges the answers `[v.time offset, v = u (or v = v), string(v), v - u]` of one literal.
+fn zi_judge(rep: &mut Report, what: &str, input: &str, written: &str, offs: &[i64], r: &[String], with_utc: bool) {
+  let want_text = Sexp::str(written).to_string();
+  if r.len() < 3 {
+    let o = norm(r.first().map(|s| s.as_str()).unwrap_or("null"));
+    if o == "panic" {
+      rep.disagree(Kind::ImplVsSpec, "zone-instant", &format!("C14 named zone: reading or comparing a {} with a {} local time panics", what, zi_class(offs.len())), input, "panic", "a value or null");
+    } else if offs.len() == 1 {
+      rep.disagree(Kind::ImplVsSpec, "zone-instant", &format!("C14 named zone: a {} whose local time exists once in the zone is not a value", what), input, &o, "a value");
+    } else {
+      rep.hit(&format!("zone-instant:{}:{}:literal-null", what.replace(' ', "-"), zi_class(offs.len())));
+    }
+    return;
+  }
+  let off_obs = r[0].clone();
+  let got_off: Option<i64> = if off_obs.starts_with("(dtd ") { off_obs[5..off_obs.len() - 1].parse::<i128>().ok().map(|n| (n / 1_000_000_000) as i64) } else { None };
+  if norm(&off_obs) == "panic" || norm(&r[1]) == "panic" || norm(&r[2]) == "panic" {
+    rep.disagree(Kind::ImplVsSpec, "zone-instant", &format!("C14 named zone: reading or comparing a {} with a {} local time panics", what, zi_class(offs.len())), input, "panic", "a value or null");
+    return;
+  }
+  // printing back as written: every value
+  if r[2] != want_text {
+    rep.disagree(Kind::ImplVsSpec, "zone-instant", &format!("C14 named zone: the text of a {} is not what was written", what), input, &r[2], &want_text);
+  }
+  match offs.len() {
+    1 => {
+      let o = offs[0];
+      let want_off = format!("(dtd {})", o as i128 * 1_000_000_000);
+      let mut got = vec![];
+      let mut want = vec![];
+      if off_obs != want_off {
+        got.push(format!("time offset {}", off_obs));
+        want.push(format!("time offset {}", want_off));
+      }
+      if with_utc && r[1] != "true" {
+        got.push(format!("v = u {}", r[1]));
+        want.push("v = u true".to_string());
+      }
+      if with_utc && r.len() > 3 && r[3] != "(dtd 0)" {
+        got.push(format!("v - u {}", r[3]));
+        want.push("v - u (dtd 0)".to_string());
+      }
+      if !got.is_empty() {
+        rep.disagree(Kind::ImplVsSpec, "zone-instant", &format!("C14 named zone: a {} does not denote the instant local time minus the offset of the zone's rules{}", what, zi_misplaced(written)), input, &got.join("; "), &want.join("; "));
+      }
+    }
+    0 => {
+      // no instant has this wall clock: a value may exist (it prints as written) but it denotes no instant
+      if got_off.is_some() || r[1] == "true" || r[1] == "false" {
+        rep.disagree(Kind::ImplVsSpec, "zone-instant", &format!("C14 named zone: a {} whose local time is skipped in the zone denotes an instant{}", what, zi_misplaced(written)), input, &format!("time offset {}, v = v {}", off_obs, r[1]), "no time offset, incomparable (or a null literal)");
+      } else {
+        rep.hit(&format!("zone-instant:{}:skipped:no-instant", what.replace(' ', "-")));
+      }
+    }
+    _ => match got_off {
+      Some(g) if !offs.contains(&g) => {
+        rep.disagree(Kind::ImplVsSpec, "zone-instant", &format!("C14 named zone: a {} whose local time is repeated gets an offset that is neither of the two in force", what), input, &off_obs, &format!("{:?} or none", offs));
+      }
+      Some(_) => rep.hit(&format!("zone-instant:{}:repeated:one-of-the-two", what.replace(' ', "-"))),
+      None => rep.hit(&format!("zone-instant:{}:repeated:no-instant", what.replace(' ', "-"))),
+    },
+  }
+}
+
+fn run_zone_instant(rep: &mut Report, model: &mut Model, thorough: bool) {
+  let zones = load_zone_tables(rep);
+  let mut n_lit = 0usize;
+  for z in &zones {
+    if !feel(&format!("time(\"12:00:00@{}\")", z.name)).starts_with("(time") {
+      rep.hit("zone-instant:zone-unknown-to-the-bundled-database");
+      continue;
+    }
+    // ---- date and time literals around every transition
+    let mut locals: Vec<(i64, i64)> = vec![]; // (local seconds, nanoseconds)
+    let mut prev = z.initial;
+    for (t, o) in &z.trs {
+      let (ob, oa) = (prev, *o);
+      prev = *o;
+      let w = ob.abs().max(oa.abs()) + 7200;
+      let lo = (*t + ob.min(oa) - w).div_euclid(1800) * 1800;
+      let hi = *t + ob.max(oa) + w;
+      let mut l = lo;
+      while l <= hi {
+        locals.push((l, 0));
+        l += 1800;
+      }
+      // the edges to the second and to the nanosecond, on both wall clocks
+      for e in [*t + ob - 1, *t + ob, *t + oa - 1, *t + oa] {
+        locals.push((e, 0));
+        locals.push((e, 999_999_999));
+        locals.push((e, 1));
+      }
+    }
+    if !thorough {
+      // quick tier: the half-hour grid in full; the edges of every third transition
+      let mut k = 0usize;
+      locals.retain(|(l, ns)| {
+        if l % 1800 == 0 && *ns == 0 {
+          true
+        } else {
+          let keep = k % 36 < 12;
+          k += 1;
+          keep
+        }
+      });
+    }
+    locals.sort();
+    locals.dedup();
+    locals.retain(|(l, _)| !(*l + 54_000 >= z.until || *l - 54_000 < z.since));
+    // the same question to the Lean specification (`ZoneRules.offsetsForLocal`: "the instant l − o has the
+    // offset o", a fold over the transitions) - a second statement of the oracle, compared on every literal
+    let req = format!(
+      "(c14 zonelocal {} ({}) ({}))",
+      z.initial,
+      z.trs.iter().map(|(t, o)| format!("{} {}", t, o)).collect::<Vec<_>>().join(" "),
+      locals.iter().map(|(l, _)| l.to_string()).collect::<Vec<_>>().join(" ")
+    );
+    let ans = model.ask(&req);
+    let spec: Vec<Vec<i64>> = match Sexp::parse(&ans).and_then(|s| s.as_list().map(|l| l.to_vec())) {
+      Some(items) => items.iter().map(|it| it.as_list().map(|l| l.iter().filter_map(|x| x.to_string().parse::<i64>().ok()).collect()).unwrap_or_default()).collect(),
+      None => vec![],
+    };
+    if spec.len() != locals.len() {
+      rep.disagree(Kind::ImplVsModel, "zone-instant", "driver-error (c14 zonelocal)", &z.name, &ans.chars().take(80).collect::<String>(), "one list of offsets per local time");
+    }
+    for (i, (l, ns)) in locals.iter().enumerate() {
+      let offs = z.offsets_for_local(*l);
+      if let Some(sp) = spec.get(i) {
+        let (mut a, mut b) = (offs.clone(), sp.clone());
+        a.sort();
+        b.sort();
+        if a != b {
+          rep.disagree(Kind::ImplVsModel, "zone-instant", "harness: the interval oracle and the Lean specification of the zone rules differ", &format!("{} local {}", z.name, l), &format!("{:?}", a), &format!("{:?}", b));
+        }
+      }
+      let written = format!("{}@{}", zi_local_text(*l, *ns), z.name);
+      let lit = if i % 2 == 0 { format!("date and time(\"{}\")", written) } else { format!("@\"{}\"", written) };
+      let (e, with_utc) = if offs.len() == 1 {
+        (format!("{{v: {}, u: date and time(\"{}Z\"), r: [v.time offset, v = u, string(v), v - u]}}.r", lit, zi_local_text(*l - offs[0], *ns)), true)
+      } else {
+        (format!("{{v: {}, r: [v.time offset, v = v, string(v)]}}.r", lit), false)
+      };
+      let r = feel_list(&e);
+      n_lit += 1;
+      rep.case(&e, true);
+      rep.hit(&format!("family:zone-instant:{}", zi_class(offs.len())));
+      zi_judge(rep, "date and time literal", &e, &written, &offs, &r, with_utc);
+    }
+  }
+  // ---- time literals: the offset is the one in force today (the clock is an input of `time("…@zone")`)
+  let today = |()| -> Option<(i64, i64, i64)> { guarded(|| { let d = dmntk_feel::FeelDate::today_local(); (d.year() as i64, d.month() as i64, d.day() as i64) }).ok() };
+  if let Some((y, m, d)) = today(()) {
+    let day0 = zi_days_from_civil(y, m, d) * 86_400;
+    for z in &zones {
+      if day0 + 86_400 + 54_000 >= z.until || day0 - 54_000 < z.since || !feel(&format!("time(\"12:00:00@{}\")", z.name)).starts_with("(time") {
+        continue;
+      }
+      for k in 0..48 {
+        let sod = k * 1800;
+        let offs = z.offsets_for_local(day0 + sod);
+        let written = format!("{}@{}", zi_time_text(sod), z.name);
+        let e = format!("{{v: time(\"{}\"), r: [v.time offset, v = v, string(v)]}}.r", written);
+        let r = feel_list(&e);
+        if today(()) != Some((y, m, d)) {
+          rep.notes.push("zone-instant: the date changed during the run, time literals not judged".into());
+          break;
+        }
+        rep.case(&e, true);
+        rep.hit(&format!("family:zone-instant:time:{}", zi_class(offs.len())));
+        zi_judge(rep, "time literal", &e, &written, &offs, &r, false);
+      }
+    }
+  }
+  rep.notes.push(format!("zone-instant: {} date and time literals over {} zones", n_lit, zones.len()));
+}
+
 pub fn run(cfg: &Cfg) -> Report {
   match guarded(|| run_inner(cfg)) {
     Ok(r) => r,
@@ -1538,6 +1847,8 @@ fn run_inner(cfg: &Cfg) -> Report {
       rep.disagree(Kind::ImplVsSpec, "zones", "C14 well-known IANA zone identifier is not accepted", &format!("time(\"12:00:00@{}\")", n), "null", "a time");
     }
   }
+  // ---- named zones: what the literal denotes (first: no other family has resolved an offset yet)
+  run_zone_instant(&mut rep, &mut model, thorough);
   let cases = gen_cases(&mut rng, thorough);
   // ---- implementation
   struct Obs {
